@@ -129,7 +129,7 @@ theorem sound_cntError : Sound (AnyM.cntError (α := α)) where
     intro s l k n h
     have h' : s = countError l := by injection h
     simp only [AnyM.cntError, List.cons.injEq, and_true]
-    cases n <;> simp [Machine.step, cntErrorM, fwdE, fwdC, countError_append, countError, h']
+    cases n <;> simp [Machine.step, cntErrorM, fwdC, countError_append, countError, h']
 
 theorem sound_cntComplete : Sound (AnyM.cntComplete (α := α)) where
   init := rfl
@@ -138,7 +138,7 @@ theorem sound_cntComplete : Sound (AnyM.cntComplete (α := α)) where
     intro s l k n h
     have h' : s = countComplete l := by injection h
     simp only [AnyM.cntComplete, List.cons.injEq, and_true]
-    cases n <;> simp [Machine.step, cntCompleteM, fwdE, fwdC, countComplete_append, countComplete, h']
+    cases n <;> simp [Machine.step, cntCompleteM, fwdE, countComplete_append, countComplete, h']
 
 theorem sound_lag : Sound (AnyM.lag (α := α)) where
   init := rfl
